@@ -1,5 +1,7 @@
 import Cql.Audit
 import Cql.Props.C03
 import Cql.Props.C03Vint
+import Cql.Props.C03AsWritten
 #audit_namespace Cql.Props.C03
 #audit_namespace Cql.Props.C03Vint
+#audit_namespace Cql.Props.C03AsWritten
